@@ -42,6 +42,21 @@ def gen_case(rng, tier):
             if rng.random() < 0.5:
                 n['md']['note'] = 1
             n.setdefault('mdsyn', rng.choice(['hex', 'brace']))
+    if rng.random() < 0.2:
+        # several value-less entries inside one tagged container (the library shares one null node among them: the same node object is
+        # written more than once), or one tagged value-less node reached through an anchor and an alias
+        conts = [n for _, n in emit.walk(doc) if n['t'] in ('map', 'seq')]
+        c = rng.choice(conts)
+        k = rng.choice([2, 2, 3])
+        fill = [S(None, nf=rng.choice(['', '', '~', 'null'])) for _ in range(k)]
+        if c['t'] == 'map':
+            c['items'] += [[f'nv{i}', f] for i, f in enumerate(fill)]
+        else:
+            c['items'] += fill
+        if not emit.has_flags(c):
+            c[rng.choice(['del', 'prio'])] = rng.choice([True, False]) if rng.random() < 0.5 else 1
+            if c.get('prio') is True or c.get('prio') is False:
+                c['prio'] = 1
     skeleton = emit.strip_flags(c19._despecial(doc))
     ctxs = []
     for _ in range(3):
